@@ -12,9 +12,9 @@ CHECKS = {
     technique="TLC exhaustive small-scope model + TLC-generated cases replayed into the code, judged by TLA+ (LookupJudge, HermiteJudge)",
     design="6/C17"),
  "C03": dict(level="model_checking",
-    text="TLC explores the OdeSystem.tla design model (integrate loop with clamp, direction fixing, halving, continuation, events, faults) exhaustively on small tick ranges for every sign/direction pattern and checks FirstRowIsInitial, SegmentMonotone, EndsAtTarget, NoOvershootOnCommit, Progress; every execution of the real OdeSystem over a lattice of families x placements x dt x call sequences is recorded by a zero-hook sensor and validated event by event against the TLA+ monitor OdeTrace.tla (clauses C03.*), which re-derives the committed rows and compares them with the public state.",
+    text="TLC explores the OdeSystem.tla design model (integrate loop with clamp, direction fixing, halving, continuation, events, faults) exhaustively on small tick ranges for every sign/direction pattern and checks FirstRowIsInitial, SegmentMonotone, EndsAtTarget, NoOvershootOnCommit, Progress; every execution of the real OdeSystem over a lattice of families x placements x dt x call sequences is recorded by a zero-hook sensor and validated event by event against the TLA+ monitor OdeTrace.tla (clauses C03.*), which re-derives the committed rows and compares them with the public state. In the other direction TLC (-simulate, OdeSystemSim.tla) produces behaviours of the design model - API script, callback assignments, crash points - that are replayed on the real code with explicit and splitting fixed-step methods; the projected state (rows, step, status) must equal the model's prediction at every API return (exactly, times being dyadic).",
     note="Trusted: TLC; exact interning of floats to ranks/ids (fractions.Fraction); EndUnits=32 / UlpFew=4 in spec/Bounds.tla. The model abstracts time to integer ticks and states to step provenance. float16/torch not covered.",
-    technique="TLA+ design model checked by TLC + trace validation of the real code against a TLA+ monitor (OdeTrace.tla)", design="6/C03"),
+    technique="TLA+ design model checked by TLC + trace validation of the real code against a TLA+ monitor (OdeTrace.tla) + replay of TLC-simulated model behaviours into the real code", design="6/C03"),
  "C04": dict(level="model_checking",
     text="OdeSystem.tla: FixedStepsEqualDt, FixedDtKeptBetweenSteps, NoOvershootOnCommit for every placement of the span (the deviations absFinalClamp / dirFromSystemSpan / clampAdoptsDt are shown to violate them); traces of all fixed-step families are validated by OdeTrace.tla (C04.* clauses: step is dt or the exact remainder, never longer, clamp only when needed, returned step and next step equal the request, implicit methods shorten only after a failed stage solve); shift and reflection twins are compared by TwinJudge.tla.",
     note="Twin runs use dyadic shifts and steps so time arithmetic is exact; state bounds TwinRoundingUnitsPerStep=16 / TwinTolUnits=100 in spec/Bounds.tla.",
@@ -24,17 +24,17 @@ CHECKS = {
     note="Accuracy on rational-solution problems only (TLC cannot supply exp/sin); ModestK=10 x amplification bound. Random linear systems not covered.",
     technique="TLC model checking + trace validation (OdeTrace.tla) + spec-supplied exact solutions (Accuracy.tla)", design="6/C05"),
  "C09": dict(level="model_checking",
-    text="OdeSystem.tla: TerminalStop, PiecesAreSteps, SegmentMonotone with roots in interiors, on boundaries and at the start, nested landing call, continuation and faults (deviations keepRolledBackPiece / frontInsert violate PiecesAreSteps); traces with mixes of terminal/non-terminal events, infinite targets, both directions, continuation are validated by OdeTrace.tla incl. the ground truth defined by the scenario (earliest terminal root along the direction).",
+    text="OdeSystem.tla: TerminalStop, PiecesAreSteps, SegmentMonotone with roots in interiors, on boundaries and at the start, nested landing call, continuation and faults (deviations keepRolledBackPiece / frontInsert violate PiecesAreSteps); traces with mixes of terminal/non-terminal events, infinite targets, both directions, continuation are validated by OdeTrace.tla incl. the ground truth defined by the scenario (earliest terminal root along the direction). In the other direction TLC (-simulate, OdeSystemSim.tla) produces behaviours of the design model - API script, callback assignments, crash points - that are replayed on the real code with explicit and splitting fixed-step methods; the projected state (rows, step, status, events, dense pieces) must equal the model's prediction at every API return (exactly, times being dyadic).",
     note="Ground truth for time events only; state events on protocol clauses. Continuation does not re-arm the stopping event.",
-    technique="TLC model checking + trace validation (OdeTrace.tla)", design="6/C09"),
+    technique="TLC model checking + trace validation (OdeTrace.tla) + replay of TLC-simulated model behaviours into the real code", design="6/C09"),
  "C20": dict(level="model_checking",
     text="At every event of every trace OdeTrace.tla compares nfev with the independent count of completed user right-hand-side calls since construction/reset and njev with the count of Jacobian requests, and checks the callback protocol (order, exactly once per recorded outer step, after the row is visible, assigned dt adopted, none inside the terminal landing); two systems built from one DiffRHS are checked to count separately (TwinJudge.tla).",
     note="Counters come from wrappers installed by the sensor (WrappedRhs, a logging DiffRHS subclass).",
     technique="trace validation against a TLA+ monitor (OdeTrace.tla), TLC design model", design="6/C20"),
  "C06": dict(level="model_checking",
-    text="OdeSystem.tla: PiecesAreSteps in every reachable state (roll-back, landing on a terminal event, continuation, failure, both directions; deviations keepRolledBackPiece/frontInsert violate it). On the real code OdeTrace.tla tracks the piece list through every add/remove and compares it with the recorded steps; DenseJudge.tla decides, from exact facts sensed on the real solution object, that every grid/mid/quarter-point query is answered by the piece whose interval contains it (the serving piece is observed through a recording proxy), recorded states are reproduced bit for bit (tolerance for Richardson wrappers), scalar and array queries agree, end slopes equal the right-hand side at the piece's end states bit for bit, pieces join, and the mid-step error on rational-solution problems stays within a constant of h^4 M4/384 plus the integrator's error.",
+    text="OdeSystem.tla: PiecesAreSteps in every reachable state (roll-back, landing on a terminal event, continuation, failure, both directions; deviations keepRolledBackPiece/frontInsert violate it). On the real code OdeTrace.tla tracks the piece list through every add/remove and compares it with the recorded steps; DenseJudge.tla decides, from exact facts sensed on the real solution object, that every grid/mid/quarter-point query is answered by the piece whose interval contains it (the serving piece is observed through a recording proxy), recorded states are reproduced bit for bit (tolerance for Richardson wrappers), scalar and array queries agree, end slopes equal the right-hand side at the piece's end states bit for bit, pieces join, and the mid-step error on rational-solution problems stays within a constant of h^4 M4/384 plus the integrator's error. In the other direction TLC (-simulate, OdeSystemSim.tla) produces behaviours of the design model - API script, callback assignments, crash points - that are replayed on the real code with explicit and splitting fixed-step methods; the projected state (rows, step, status, dense pieces) must equal the model's prediction at every API return (exactly, times being dyadic).",
     note="Histories keep one direction per system. O(h^4) clause on the two rational-solution problems only. Bounds in spec/Bounds.tla.",
-    technique="TLC model checking + trace validation (OdeTrace.tla) + fact judge (DenseJudge.tla)", design="6/C06"),
+    technique="TLC model checking + trace validation (OdeTrace.tla) + fact judge (DenseJudge.tla) + replay of TLC-simulated model behaviours into the real code", design="6/C06"),
  "C07": dict(level="model_checking",
     text="OdeSystem.tla: EventsAreRoots, NoEventTwice (boundary roots shared by two steps / two events; deviation dedupByPosition violates it), TerminalStop. Every scenario of the event lattice (time/state/derivative events, scales 1e-18..1e6, directions, up to 6 simultaneous events, interior/boundary/last-ulp/unrepresentable roots, all families, both directions, dense on/off) is traced: OdeTrace.tla checks each recorded event inside its step, ordered along the direction, unique; EventJudge.tla decides residual, equality with the dense solution, distance to the true root, direction compatibility and uniqueness against the ground truth the scenario defines.",
     note="True-root distance for time events and for state events on y'=-y^2 only; on backward runs a direction is accepted under either reading.",
@@ -44,9 +44,9 @@ CHECKS = {
     note="With a requested direction a backward crossing is not demanded (the two readings of 'direction' disagree there).",
     technique="TLC model checking + fact judge (EventJudge.tla) over traces of the real code", design="6/C08"),
  "C12": dict(level="fault_enumeration",
-    text="Every position k of the failing call among all right-hand-side / event / callback invocations of short runs is a separate execution of the real code (all k up to a cap, else first/last and a seeded sample), with second faults, KeyboardInterrupt, resume and reset; each trace is validated by OdeTrace.tla (error type and cause chain, status, trimmed paired finite prefix that equals the committed rows, dense pieces exactly those steps, resume reaches the target, reset pristine) and the resumed result is compared with the undisturbed run by TwinJudge.tla; OdeSystem.tla with FAULTS=TRUE lets TLC visit every crash point of every short history at design level.",
+    text="Every position k of the failing call among all right-hand-side / event / callback invocations of short runs is a separate execution of the real code (all k up to a cap, else first/last and a seeded sample), with second faults, KeyboardInterrupt, resume and reset; each trace is validated by OdeTrace.tla (error type and cause chain, status, trimmed paired finite prefix that equals the committed rows, dense pieces exactly those steps, resume reaches the target, reset pristine) and the resumed result is compared with the undisturbed run by TwinJudge.tla; OdeSystem.tla with FAULTS=TRUE lets TLC visit every crash point of every short history at design level. In the other direction TLC (-simulate, OdeSystemSim.tla) produces behaviours of the design model - API script, callback assignments, crash points - that are replayed on the real code with explicit and splitting fixed-step methods; the projected state (rows, step, status, events, dense pieces, raised error and its cause) must equal the model's prediction at every API return (exactly, times being dyadic).",
     note="Faults are injected through wrapped user callables only. Bit-for-bit resume only for fixed-step explicit/splitting runs without events/callbacks, tolerance elsewhere.",
-    technique="exhaustive crash-point enumeration on the real code judged by TLA+ (OdeTrace.tla, TwinJudge.tla) + TLC design model with a Fault action", design="6/C12"),
+    technique="exhaustive crash-point enumeration on the real code judged by TLA+ (OdeTrace.tla, TwinJudge.tla) + TLC design model with a Fault action whose simulated behaviours are replayed into the real code", design="6/C12"),
  "C13": dict(level="model_checking",
     text="OdeSystem.tla: ResetRestores for every reachable prior state and CallAtTargetChangesNothing (deviation resetKeepsEvents violates it). Histories over {integrate(), integrate(t), set dt/rtol/atol/method/tf, set_kick_vars, events, faults} followed by reset() are traced and validated by OdeTrace.tla (C13.*), and the suffix is re-run on a freshly constructed twin: TwinJudge.tla requires rows, mid-step dense values and events to be identical bit for bit; splits of the span at grid points must reproduce the unsplit run.",
     note="The twin is built with the constructor arguments plus the tolerance/method/tf/kick settings the history applied. njev across reset not compared.",
